@@ -1,6 +1,6 @@
 //go:build verif
 
-// C12 part "splice" — strings assembled from TWO issued keys (DESIGN §10.7). Someone who holds several keys can
+// C12 part "splice" — strings assembled from TWO issued keys (DESIGN §10.5c-f). Someone who holds several keys can
 // cut and paste their bytes without knowing the licence secret: every byte-level cut point, every 8-byte cipher
 // block and every plaintext field position of one key is replaced by the other key's bytes (base64 decoded,
 // spliced, re-encoded). The result must grant nothing that neither of the two originals grants.
